@@ -113,8 +113,11 @@ class Unit:
     def __init__(self, id, fn, pre=None, post=None, replace=(), cfg='abacus', backends=('sat',), timeout=120,
                  tier='quick', cxx=None, note='', split=False, loop_contracts=None, ghost=None, extra_flags=(),
                  lemma=False, requires_extra=(), ensures_extra=(), no_canary=False, ub_only=False, unwind=None,
-                 object_bits=None, defines=(), link_src=False, expect_props=(), engine='bv'):
+                 object_bits=None, defines=(), link_src=False, expect_props=(), engine='bv', prelude='', replace_raw=(), needs=()):
         self.engine = engine
+        self.needs = list(needs)
+        self.prelude = prelude
+        self.replace_raw = list(replace_raw)
         self.id, self.fn, self.pre, self.post = id, fn, pre, post
         self.replace = list(replace)
         self.cfg, self.backends, self.timeout, self.tier = cfg, list(backends), timeout, tier
@@ -208,7 +211,6 @@ def harness_text(f, cname, hname, canary=True):
 
 
 PRELUDE = '''
-double vf_sqrt(double x);
 '''
 
 
@@ -221,7 +223,7 @@ def emit_unit(unit, outdir):
     for key, txt in unit.ghost.items():
         ex.ghost[(X.cname_of(key[0]), key[1])] = txt
     cn = ex.require_mangled(unit.fn)
-    needed = [unit.pre, unit.post]
+    needed = [unit.pre, unit.post] + unit.needs
     for (g, gpre, gpost) in unit.replace:
         ex.require_mangled(g)
         if gpre != 'UF':
@@ -230,8 +232,14 @@ def emit_unit(unit, outdir):
         if p:
             ex.require_mangled(p)
     f = ex.funcs[cn]
-    ex.contracts[cn] = contract_text(f, unit.pre, unit.post, unit.lemma, unit.requires_extra, unit.ensures_extra)
-    prelude = PRELUDE
+
+    def subst(txt):
+        for i in range(len(f['params']), 0, -1):
+            txt = txt.replace('$%d' % i, f['params'][i - 1][0])
+        return txt
+    ex.contracts[cn] = contract_text(f, unit.pre, unit.post, unit.lemma, [subst(x) for x in unit.requires_extra],
+                                     [subst(x) for x in unit.ensures_extra])
+    prelude = PRELUDE + unit.prelude + '\n'
     uf_abstracted = []
     for (g, gpre, gpost) in unit.replace:
         gcn = X.cname_of(g)
@@ -325,7 +333,7 @@ def prepare_unit(unit, udir):
     if rc != 0:
         raise Undecided('%s: goto-cc failed: %s' % (unit.id, (err or out)[-2000:]))
     cmd = ['goto-instrument', '--dfcc', 'vf_harness', '--enforce-contract', meta['cname']]
-    for g in meta['replaced']:
+    for g in meta['replaced'] + unit.replace_raw:
         cmd += ['--replace-call-with-contract', g]
     if unit.loop_contracts:
         cmd += ['--apply-loop-contracts']
